@@ -125,10 +125,12 @@ def build(manifest):
     f = vec_to_index_loop(f, rewrites)      # the same loop written as `for node_id in child_nodes { .. }`
     f = all_to_index_loop(f, rewrites)      # ... or as `let _ = child_nodes.into_iter().all(|node_id| { .. })` (stops at the first false)
     f = splice_contract(f, SPEC['delete'][1], 'r')
-    if rewrites:
-        f = splice_loop(f, 0, LOOP)
-        # hint at the head of the loop body (the line D21 generates): the map lost the node, so it has fewer keys than on entry
-        f = splice_at(f, r'^\s*let node_id = &child_nodes\[idx_node_id\];', '                proof { lemma_strictly_fewer(self.node_map@, old(self).node_map@, *node_id); }')
+    gen = re.search(r'^\s*let (\w+) = &(\w+)\[(idx_\w+)\];', f, re.M)      # the line the rewrite generates: element, vector, index (any names)
+    if rewrites and gen:
+        f = splice_loop(f, 0, LOOP.replace('idx_node_id', gen.group(3)).replace('child_nodes', gen.group(2)))
+        # hint at the head of the loop body: the map lost the node, so it has fewer keys than on entry (`node_id` is the parameter here)
+        f = splice_at(f, r'^\s*let %s = &%s\[%s\];' % (gen.group(1), gen.group(2), gen.group(3)),
+                      '                proof { lemma_strictly_fewer(self.node_map@, old(self).node_map@, *node_id); }')
     types = asp.struct('AddressSpace', keep_fields=['node_map', 'references'])
     a = Asm()
     a.add('use vstd::prelude::*;\nverus! {\nglobal size_of usize == 8;\n', 'prelude', 'env')
